@@ -97,4 +97,155 @@ Proof.
   - eapply IHl; eauto.
 Qed.
 
+Lemma RefNode_content_insert self pos it w r w' re :
+  content_insert self pos it w = Val (r, w') -> RefNode w re -> RefNode w' re.
+Proof.
+  unfold InvProofsOrigins3.RefNode. intros H (n & Hn & Hr). apply content_insert_inv in H as (ns & Hns & _ & ->).
+  destruct (N.eq_dec re self) as [->|Hne].
+  - rewrite nodes_wset_eq. assert (ns = n) as -> by congruence. eexists. split; [reflexivity | exact Hr].
+  - exists n. rewrite nodes_wset_neq by auto. auto.
+Qed.
+
+Ltac os_of E := match type of E with ?mm ?wa = Val (_, ?wb) => refine ((_ : osp mm) wa _ wb E) end.
+
+(* ---------- copy ---------- *)
+Lemma copied_inner_orel self other pos m version w r w' :
+  create_copied_sub_element_inner T self other pos m version w = Val (r, w') -> orel T w w'.
+Proof.
+  intros H. unfold create_copied_sub_element_inner in H.
+  wrun_ro H ltac:(apply orel_osub, osub_refl).
+  wstepn H c Ed. 2:{ apply orel_osub. eapply osp_deep_copy; eauto. }
+  assert (S1 : osub w w0) by (eapply osp_deep_copy; eauto).
+  wrun_ro H ltac:(apply orel_osub; exact S1).
+  wstepn H u Em.
+  assert (S2 : osub w w1) by (eapply osub_trans; [exact S1|]; os_of Em; os_tac).
+  wstepn H cn Eg; winv Eg.
+  wstepn H ident Ei. 2:{ unfold is_identifiable in Ei. absurd_err Ei. }
+  wstepn H u2 Eu. 2:{ apply orel_osub. eapply osub_trans; [exact S2|]. os_of Eu. os_tac. }
+  assert (S3 : osub w w2) by (eapply osub_trans; [exact S2|]; os_of Eu; os_tac).
+  wstepn H w2' Ew; winv Ew.
+  wstepn H u3 Er.
+  2:{ destruct (register_RW _ _ _ _ _ _ _ Er) as (Nr & Or). intros re Hre.
+      destruct (Or _ Hre) as [?|(nz & Hnz & Hrz)]; [left; apply S3; auto|]. right. exists nz. rewrite Nr. auto. }
+  destruct (register_RW _ _ _ _ _ _ _ Er) as (Nr & Or).
+  assert (R4 : orel T w w3).
+  { intros re Hre. destruct (Or _ Hre) as [?|(nz & Hnz & Hrz)]; [left; apply S3; auto|]. right. exists nz. rewrite Nr. auto. }
+  assert (FIN : forall rz wz, content_insert self pos (CElem c) w3 = Val (rz, wz) -> orel T w wz).
+  { intros rz wz Ec re Hre. assert (Hre3 : in_origins w3 re) by (eapply osp_content_insert; eauto).
+    destruct (R4 _ Hre3) as [?|Hr0]; auto. right. eapply RefNode_content_insert; eauto. }
+  wstepn H u5 Ec; [winv H|]; eapply FIN; eauto.
+Qed.
+
+Lemma e_copied_orel h other w r w' : e_create_copied_sub_element T LATEST h other w = Val (r, w') -> orel T w w'.
+Proof.
+  intros H. unfold e_create_copied_sub_element, raw_create_copied_sub_element in H.
+  wrun_ro H ltac:(apply orel_osub, osub_refl). eapply copied_inner_orel; eauto.
+Qed.
+Lemma e_copied_at_orel h other pos w r w' : e_create_copied_sub_element_at T LATEST h other pos w = Val (r, w') -> orel T w w'.
+Proof.
+  intros H. unfold e_create_copied_sub_element_at, raw_create_copied_sub_element_at in H.
+  wrun_ro H ltac:(apply orel_osub, osub_refl). eapply copied_inner_orel; eauto.
+Qed.
+
+(* ---------- moves ---------- *)
+Lemma move_local_osub self mv pos m version w r w' :
+  move_element_local T check_fn self mv pos m version w = Val (r, w') -> osub w w'.
+Proof.
+  intros H. unfold move_element_local in H.
+  wrun_ro H ltac:(apply osub_refl).
+  match goal with
+  | Es : path_unchecked T ?mn0 w = Val (OK ?spx, w), Ed : path_unchecked T ?n0 w = Val (OK ?dpx, w),
+    Hm : w_nodes w mv = Some ?mn0, En : named_paths T _ w = Val (OK ?orig, w) |- _ =>
+    rename spx into src_prefix; rename dpx into dest_prefix; rename orig into original
+  end.
+  wstepn H u Ed. 2:{ os_of Ed. os_tac. }
+  assert (F1 : osub w w0) by (os_of Ed; os_tac).
+  wstepn H u2 Em.
+  assert (F2 : osub w w1) by (eapply osub_trans; [exact F1|]; os_of Em; os_tac).
+  wstepn H mn2 Eg; winv Eg.
+  wstepn H ident Ei. 2:{ unfold is_identifiable in Ei. absurd_err Ei. }
+  wstepn H dest_path Edp. 2:{ eapply osub_trans; [exact F2|]. os_of Edp. os_tac. }
+  assert (F3 : osub w w2) by (eapply osub_trans; [exact F2|]; os_of Edp; os_tac).
+  wstepn H u3 Ea.
+  2:{ eapply osub_trans; [exact F3|]. destruct ident; [eapply osp_fix_identifiables; eauto|].
+      eapply (osp_each_loop (fixid_body m src_prefix dest_path)); eauto. intros a. apply osp_fixid_body. }
+  assert (F4 : osub w w3).
+  { eapply osub_trans; [exact F3|]. destruct ident; [eapply osp_fix_identifiables; eauto|].
+    eapply (osp_each_loop (fixid_body m src_prefix dest_path)); eauto. intros a. apply osp_fixid_body. }
+  wstepn H u4 Eb.
+  2:{ eapply osub_trans; [exact F4|].
+      eapply (osp_each_loop (move_ref_body T check_fn m src_prefix dest_path version)); eauto.
+      intros a. apply osp_move_ref_body. }
+  assert (F5 : osub w w4).
+  { eapply osub_trans; [exact F4|].
+    eapply (osp_each_loop (move_ref_body T check_fn m src_prefix dest_path version)); eauto.
+    intros a. apply osp_move_ref_body. }
+  eapply osub_trans; [exact F5|]. os_of H. os_tac.
+Qed.
+
+Lemma add_ref_loop_adds m sp dp version original l : forall w r w',
+  add_ref_loop T check_fn m sp dp version original l w = Val (r, w') ->
+  forall re, in_origins w' re -> in_origins w re \/ exists s, In (s, re) l.
+Proof.
+  induction l as [|[p e] l IH]; intros w r w' H re Hre; cbn [add_ref_loop] in H.
+  - winv H. auto.
+  - wstepn H u Es.
+    + destruct (IH _ _ _ H _ Hre) as [Hin|(s & Hs)]; [|right; exists s; right; auto].
+      assert (Hadd : oaddP e True w w0).
+      { match type of Es with ?mm ?wa = _ => refine ((_ : oapP e _ mm) wa _ _ Es) end. oa_tac. }
+      destruct (Hadd _ Hin) as [?|(-> & _)]; auto. right. exists p. left; auto.
+    + assert (Hadd : oaddP e True w w').
+      { match type of Es with ?mm ?wa = _ => refine ((_ : oapP e _ mm) wa _ _ Es) end. oa_tac. }
+      destruct (Hadd _ Hre) as [?|(-> & _)]; auto. right. exists p. left; auto.
+Qed.
+
+Lemma ref_texts_refnodes ids : forall w l, ref_texts T tab_en ids w = Val (OK l, w) ->
+  forall s re, In (s, re) l -> RefNode w re.
+Proof.
+  induction ids as [|i ids IH]; intros w l H s re Hin; cbn [ref_texts] in H.
+  - winv H. destruct Hin.
+  - wrun H idtac; try (eapply IH; eauto; fail).
+    destruct Hin as [[= <- <-]|Hin]; [|eapply IH; eauto]. eexists. split; eauto.
+Qed.
+
+Lemma move_full_orel self mv pos m m_src version w r w' :
+  cframe w w' -> move_element_full T tab_en check_fn self mv pos m m_src version w = Val (r, w') -> orel T w w'.
+Proof.
+  intros CF H. unfold move_element_full in H.
+  wrun_ro H ltac:(apply orel_osub, osub_refl).
+  match goal with
+  | Es : path_unchecked T ?mn0 w = Val (OK ?spx, w), Ed : path_unchecked T ?n0 w = Val (OK ?dpx, w),
+    Hm : w_nodes w mv = Some ?mn0, En : named_paths T _ w = Val (OK ?orig, w),
+    Er : ref_texts T tab_en _ w = Val (OK ?orefs, w) |- _ =>
+    rename spx into src_prefix; rename dpx into dest_prefix; rename orig into original; rename orefs into orig_refs;
+    pose proof (ref_texts_refnodes _ _ _ Er) as Hrefs
+  end.
+  assert (FIN : forall wz, (forall re, in_origins wz re -> in_origins w re \/ exists s, In (s, re) orig_refs) -> wz = w' ->
+                orel T w w').
+  { intros wz Hz -> re Hre. destruct (Hz _ Hre) as [?|(s & Hs)]; auto. right.
+    eapply RefNode_frame; [exact CF | eapply Hrefs; eauto]. }
+  assert (FINs : forall wz, osub w wz -> wz = w' -> orel T w w') by (intros wz Hz ->; apply orel_osub; auto).
+  wstepn H u Ed. 2:{ eapply FINs; [os_of Ed; os_tac | reflexivity]. }
+  assert (F1 : osub w w0) by (os_of Ed; os_tac).
+  wstepn H u1 El1. 2:{ eapply FINs; [|reflexivity]. eapply osub_trans; [exact F1|]. eapply (osp_rm_id_loop m_src original); eauto. }
+  assert (F1a : osub w w1) by (eapply osub_trans; [exact F1|]; eapply (osp_rm_id_loop m_src original); eauto).
+  wstepn H u1' El2. 2:{ eapply FINs; [|reflexivity]. eapply osub_trans; [exact F1a|]. eapply (osp_rm_ref_loop m_src orig_refs); eauto. }
+  assert (F1b : osub w w2) by (eapply osub_trans; [exact F1a|]; eapply (osp_rm_ref_loop m_src orig_refs); eauto).
+  wstepn H u2 Em.
+  assert (F2 : osub w w3) by (eapply osub_trans; [exact F1b|]; os_of Em; os_tac).
+  wstepn H mn2 Eg; winv Eg.
+  wstepn H ident Ei. 2:{ unfold is_identifiable in Ei. absurd_err Ei. }
+  wstepn H dest_path Edp. 2:{ eapply FINs; [|reflexivity]. eapply osub_trans; [exact F2|]. os_of Edp. os_tac. }
+  assert (F3 : osub w w4) by (eapply osub_trans; [exact F2|]; os_of Edp; os_tac).
+  wstepn H u3 Ea.
+  2:{ eapply FINs; [|reflexivity]. eapply osub_trans; [exact F3|]. eapply (osp_add_id_loop m src_prefix dest_path original); eauto. }
+  assert (F4 : osub w w5) by (eapply osub_trans; [exact F3|]; eapply (osp_add_id_loop m src_prefix dest_path original); eauto).
+  assert (ADD : forall rz wz, add_ref_loop T check_fn m src_prefix dest_path version original orig_refs w5 = Val (rz, wz) ->
+                forall re, in_origins wz re -> in_origins w re \/ exists s, In (s, re) orig_refs).
+  { intros rz wz Ez re Hre. destruct (add_ref_loop_adds _ _ _ _ _ _ _ _ _ Ez _ Hre) as [?|?]; auto. }
+  wstepn H u4 Eb. 2:{ eapply FIN; [eapply ADD; eauto | reflexivity]. }
+  assert (S6 : osub w6 w') by (os_of H; os_tac).
+  eapply FIN; [|reflexivity]. intros re Hre. eapply ADD; eauto.
+Qed.
+
 End OS4.
